@@ -176,14 +176,22 @@ Print Assumptions deadline_never_later_split_refuted.
 
 (* ------------------------------------------------------------------ node level (termination controller: nodeTerminationTime, awaitDrain) *)
 
-(* The deadline handed to the queue is the NodeClaim's termination timestamp: one reconcile of the deleting node is a
-   drain pass under exactly claim_deadline (the parsed annotation; no NodeClaim or no annotation: no deadline, so no
-   direct deletes), or it stops with an error before any drain when the annotation does not parse. *)
+(* The deadline handed to the queue is the NodeClaim's termination timestamp: whatever happens around the drain in one
+   reconcile of the node (gate g: skipped, early errors, vanished instance, taint conflict/error, list failure,
+   status patch failure), the eviction queue afterwards is either untouched or the result of a drain pass under
+   exactly claim_deadline (the parsed annotation; no or duplicate NodeClaims / no annotation: no deadline). *)
+Theorem node_pass_queue : forall g q hc del a c now pods,
+  fst (fst (fst (node_pass g q hc del a c now pods))) = q \/
+  exists dl, claim_deadline hc a = Some dl /\
+             fst (fst (fst (node_pass g q hc del a c now pods))) = fst (drain q now dl pods).
+Proof. exact node_pass_queue_l. Qed.
+Print Assumptions node_pass_queue.
+
 Theorem node_pass_is_drain_under_claim_deadline : forall q hc del a c now pods,
   match claim_deadline hc a with
-  | Some dl => fst (fst (fst (node_pass q hc del a c now pods))) = fst (drain q now dl pods) /\
-               snd (node_pass q hc del a c now pods) = Some (snd (drain q now dl pods))
-  | None => node_pass q hc del a c now pods = (q, c, NError, None)
+  | Some dl => fst (fst (fst (node_pass GRun q hc del a c now pods))) = fst (drain q now dl pods) /\
+               snd (node_pass GRun q hc del a c now pods) = Some (snd (drain q now dl pods))
+  | None => node_pass GRun q hc del a c now pods = (q, c, NError, None)
   end.
 Proof. exact node_pass_is_drain_under_claim_deadline_l. Qed.
 Print Assumptions node_pass_is_drain_under_claim_deadline.
@@ -191,13 +199,15 @@ Print Assumptions node_pass_is_drain_under_claim_deadline.
 (* ... never later: every pod the pass selects is afterwards queued under a deadline no later than that timestamp *)
 Theorem node_deadline_never_later : forall q del a c now pods t k,
   a = AnnTime t -> In k (selected_keys now (Some t) pods) ->
-  exists d, qget k (fst (fst (fst (node_pass q true del a c now pods)))) = Some d /\ dl_le d (Some t).
+  exists d, qget k (fst (fst (fst (node_pass GRun q true del a c now pods)))) = Some d /\ dl_le d (Some t).
 Proof. exact node_deadline_never_later_l. Qed.
 Print Assumptions node_deadline_never_later.
 
-(* Drained only when no pod is waiting and, with a NodeClaim, MinDrainTime (5s) after the condition went Unknown *)
-Theorem node_drained_only_if : forall q hc del a c now pods,
-  snd (fst (node_pass q hc del a c now pods)) = NDrained ->
+(* Drained (without NodeClaim: finalizer removed) only when no pod is waiting and, with a NodeClaim, MinDrainTime (5s)
+   after the condition went Unknown; under every gate except the vanished instance *)
+Theorem node_drained_only_if : forall g q hc del a c now pods,
+  g <> GInstanceGone ->
+  (snd (fst (node_pass g q hc del a c now pods)) = NDrained \/ snd (fst (node_pass g q hc del a c now pods)) = NGone) ->
   (forall p, In p pods -> ~ waiting now p) /\
   (hc = true -> c = CTrue \/ exists s, c = CUnknown s /\ min_drain <= now - s).
 Proof. exact node_drained_only_if_l. Qed.
@@ -264,9 +274,11 @@ Proof. vm_compute. repeat split; reflexivity. Qed.
    patch; the next pass sets Unknown; Drained only 5s later *)
 Example node_passes :
   let t := 60 * sec in
-  node_pass [] true false (AnnTime t) CAbsent 0 [protected 2] = ([((2, 2), Some t)], CAbsent, NRequeue, Some (mkD (DWaiting 1) [(2, 2)])) /\
-  node_pass [] true true (AnnTime t) CAbsent (sec + 1) [] = ([], CUnknown sec, NRequeue, Some (mkD DOk [])) /\
-  snd (fst (node_pass [] true true (AnnTime t) (CUnknown sec) (6 * sec - 1) [])) = NRequeue /\
-  snd (fst (node_pass [] true true (AnnTime t) (CUnknown sec) (6 * sec) [])) = NDrained /\
-  node_pass [((2, 2), Some t)] true true AnnBad CAbsent 0 [protected 2] = ([((2, 2), Some t)], CAbsent, NError, None).
+  node_pass GRun [] true false (AnnTime t) CAbsent 0 [protected 2] = ([((2, 2), Some t)], CAbsent, NRequeue, Some (mkD (DWaiting 1) [(2, 2)])) /\
+  node_pass GRun [] true true (AnnTime t) CAbsent (sec + 1) [] = ([], CUnknown sec, NRequeue, Some (mkD DOk [])) /\
+  snd (fst (node_pass GRun [] true true (AnnTime t) (CUnknown sec) (6 * sec - 1) [])) = NRequeue /\
+  snd (fst (node_pass GRun [] true true (AnnTime t) (CUnknown sec) (6 * sec) [])) = NDrained /\
+  snd (fst (node_pass GRun [] false false AnnNone CAbsent 0 [])) = NGone /\
+  node_pass GStatusPatchFails [] true true (AnnTime t) (CUnknown sec) (6 * sec) [] = ([], CUnknown sec, NError, Some (mkD DOk [])) /\
+  node_pass GRun [((2, 2), Some t)] true true AnnBad CAbsent 0 [protected 2] = ([((2, 2), Some t)], CAbsent, NError, None).
 Proof. vm_compute. repeat split; reflexivity. Qed.
